@@ -10,7 +10,8 @@ CONSTANTS Proc <- MCProc
           TSet = {2}
           LaneSet = {1}
           MaxClock = 0
+          TagSet = {}
           GetKinds = {"Get", "GetNoWait"}
-INVARIANTS TypeOK Fifo Conservation RefusalInert PerProducerOrder WaitingImpliesEmpty
+INVARIANTS SwallowOnlyNil TypeOK Fifo Conservation RefusalInert PerProducerOrder WaitingImpliesEmpty
 PROPERTIES AllStepProps
 CHECK_DEADLOCK FALSE
